@@ -1148,6 +1148,11 @@ fn main() {
         "conv" => cmd_conv(t),
         "skin" => cmd_skin(t),
         "anim" => cmd_anim(t),
+        // mvalidate <hex>: the library's own verdict on a model file: OK | INVALID | PARSE-ERR
+        "mvalidate" => match rd_model(&verif_harness::unhex(t[1])) {
+            Err(_) => "PARSE-ERR".to_string(),
+            Ok(m) => if m.validate().is_ok() { "OK".to_string() } else { "INVALID".to_string() },
+        },
         _ => "ERR unknown".to_string(),
     });
 }
